@@ -74,6 +74,7 @@ type lbEngine struct {
 	scanNeed    map[string]int64 // C14/R10: terminator -> bytes of the opener the search must have left behind
 	searchCalls map[*ssa.Function][]*ssa.Call
 	clsSets     map[*ssa.Function]*bset
+	paramStart  bool // C14/R14: what is known about the first two bytes where Kind = <param> is stored
 	posProbe    map[*ssa.Call]bool          // summary run over File.Position: is the argument of this ResolvePos call proved <= len(Buffer)?
 	scanFns     map[string]bool             // functions whose loops are byte scans: checked for unit steps and exhaustive exits
 	progress    bool                        // C03/R7: every loop iteration advances the cursor or a counter
@@ -2147,6 +2148,37 @@ func (e *lbEngine) searchFound(in *lbInst, st *lstate, v ssa.Value) *lstate {
 	return st.ge(e.lenLin(in, call.Call.Args[0]), r.add(need))
 }
 
+// byteSetAt: what is known about Buffer[idx], the index compared modulo the equalities of the state.
+func (e *lbEngine) byteSetAt(st *lstate, idx lin) (bset, bool) {
+	out, known := fullBset(), false
+	for _, b := range st.bf {
+		if b.g != 0 {
+			continue
+		}
+		d := idx.sub(b.idx)
+		if b.idx.key() == idx.key() || (st.proves(e.at, lfact{l: d}) && st.proves(e.at, lfact{l: d.scale(-1)})) {
+			out, known = out.inter(b.set), true
+		}
+	}
+	return out, known
+}
+
+func (e *lbEngine) classifierSetByName(name string) (bset, bool) {
+	fn := e.w.fn(e.w.Char, name)
+	if fn == nil {
+		return bset{}, false
+	}
+	return e.classifierSet(fn)
+}
+
+func bsetOf(cs ...byte) bset {
+	var b bset
+	for _, c := range cs {
+		b.add(c)
+	}
+	return b
+}
+
 func (e *lbEngine) classifierSet(fn *ssa.Function) (bset, bool) {
 	if e.clsSets == nil {
 		e.clsSets = map[*ssa.Function]*bset{}
@@ -3630,6 +3662,20 @@ func (e *lbEngine) tokLenStore(in *lbInst, stp **lstate, x *ssa.Store) bool {
 		k := e.at.get(ghostFieldKey{"Token", "kindIsParam"}, "Token.kindIsParam", false)
 		st = st.eliminate(e.at, map[atomID]bool{k: true})
 		if c, ok := constString(x.Val); ok {
+			if c == "<param>" && e.paramStart && e.record {
+				// C14/R14: "@" and then a byte that may begin an identifier
+				g := e.at.get("entryPos", "cursor at entry", false)
+				okAt, okStart := linConst(-1), linConst(-1)
+				if set, known := e.byteSetAt(st, linAtom(g)); known && set.subsetOf(bsetOf('@')) {
+					okAt = linConst(0)
+				}
+				if start, ok := e.classifierSetByName("IsIdentStart"); ok {
+					if set, known := e.byteSetAt(st, linAtom(g).add(linConst(1))); known && set.subsetOf(start) {
+						okStart = linConst(0)
+					}
+				}
+				e.requireAt(st, in.fn, x, "C14/R14", funcName(in.fn)+": a <param> token is '@' followed by a byte that begins an identifier", []string{"the first byte of the token is known to be '@'", "the byte behind '@' is known to be a letter or '_'"}, []lin{okAt, okStart})
+			}
 			if c == "<param>" {
 				st = st.eq(linAtom(k), linConst(1))
 			} else {
@@ -4226,4 +4272,47 @@ func ruleC13R4(w *World, r *Report) {
 		}
 	}
 	// (writes to the current token outside nextToken — the '>>' split — are the subject of C13/R1)
+}
+
+
+// ruleC14R14: a query parameter is '@' and a name; the name begins with a letter or '_'. '@1' is the symbol '@' and an
+// integer, not a parameter called "1".
+func ruleC14R14(w *World, r *Report) {
+	const rule = "C14/R14"
+	r.rule(rule, "wherever (*Lexer).consumeToken stores Kind = <param>, the byte at the start of the token is known to be '@' and the byte behind it to be in char.IsIdentStart's set (LEXBOUNDS byte facts; the scan may live in helpers of the lexer)", 1)
+	defer debug.SetGCPercent(debug.SetGCPercent(1000))
+	root := w.fn(w.Mem, "(*Lexer).consumeToken")
+	if root == nil {
+		r.errorf("(*Lexer).consumeToken not found")
+		return
+	}
+	e := w.newLexBounds()
+	e.tokLen, e.bytes, e.paramStart, e.shallow, e.shallowLeaf = true, true, true, true, true
+	e.inlineAlso = map[string]bool{}
+	for _, h := range w.withOwnHelpers(root, "consumeNumber", "consumeQuotedContent") {
+		e.inlineAlso[h.Name()] = true
+	}
+	e.trace = verboseRule() != "" && verboseRule() != "1" && strings.HasPrefix(rule, verboseRule())
+	e.runRoot(root, map[string]bool{"noPanic": false})
+	e.runRoot(root, map[string]bool{"noPanic": true})
+	n := 0
+	for _, ob := range e.results() {
+		if ob.rule != rule {
+			continue
+		}
+		n++
+		if ob.failed == 0 {
+			r.ok(rule, ob.construct, ob.where, fmt.Sprintf("proved in %d context(s)", ob.total))
+		} else {
+			var ds []string
+			for d := range ob.details {
+				ds = append(ds, d)
+			}
+			sort.Strings(ds)
+			r.bad(rule, ob.construct, ob.where, fmt.Sprintf("%d of %d context(s): %s", ob.failed, ob.total, strings.Join(ds, " | ")))
+		}
+	}
+	if n == 0 {
+		r.errorf("no store of Kind = <param> was reached in consumeToken")
+	}
 }
